@@ -438,3 +438,28 @@ _reg_tree1 = register
 def register(spec):     # noqa: F811
     _reg_tree1(spec)
     register_lookup(spec)
+
+
+def register_static(spec):
+    """C17: the snapshot is immutable (deductive); that it mirrors the map is checked
+    by the bounded native stand-in (get_static_map builds classes dynamically with
+    __slots__: outside the verifier's subset, see DESIGN 9)."""
+    SMap = TSort('SMap')
+    spec.klass(M + 'StaticResourceMap', 'SMap', fields={'_handle_names': TSet(Str)})
+    spec.sort_name('SMap')
+    C = spec.contract
+    q = M + 'StaticResourceMap.'
+    for fn, params in (('__setattr__', dict(self=SMap, name=Str, value=TSort('Obj'))),
+                       ('__delattr__', dict(self=SMap, name=Str))):
+        C(q + fn, params=params, props=['C17'],
+          ensures={'never-returns-normally': 'False'},
+          raises={'ValueError': {'always-rejected': 'True',
+                                 'changes-nothing': 'unchanged_except(self, "")'}})
+
+
+_reg_tree2 = register
+
+
+def register(spec):     # noqa: F811
+    _reg_tree2(spec)
+    register_static(spec)
